@@ -113,6 +113,10 @@ def run_call(pool, call, res):
         params['worker_init'] = getattr(userfuncs, 'init_' + bits) if dyn else userfuncs.init
     if call.get('exit'):
         params['worker_exit'] = getattr(userfuncs, 'exit_' + bits) if dyn else userfuncs.exit_
+    if call.get('init_raises'):
+        params['worker_init'] = userfuncs.PhaseFail('init', call['init_raises'][0], call['init_raises'][1], bits)
+    if call.get('exit_raises'):
+        params['worker_exit'] = userfuncs.PhaseFail('exit', call['exit_raises'][0], call['exit_raises'][1], bits)
     func = getattr(userfuncs, call.get('func', 'task') + ('_' + bits if dyn else ''))
     if kind == 'apply_batch' and dyn:
         func = getattr(userfuncs, 'task_' + bits)
@@ -169,8 +173,9 @@ def run_call(pool, call, res):
                 kw = {}
                 if j.get('timeout') is not None:
                     kw['task_timeout'] = j['timeout']
-                asyncs.append(pool.apply_async(func, tuple(j.get('args', ())), j.get('kwargs'), callback=cb,
-                                               error_callback=ecb, **kw))
+                has_cb, has_ecb = j.get('cbs', [True, True])
+                asyncs.append(pool.apply_async(func, tuple(j.get('args', ())), j.get('kwargs'), callback=cb if has_cb else None,
+                                               error_callback=ecb if has_ecb else None, **kw))
             if call.get('join_first'):
                 pool.stop_and_join()
             vals = []
